@@ -72,6 +72,15 @@ RegStatic(list) ==
              sub == IF h.k \in {"g", "cont", "specs"} THEN RegStatic(h.ch) ELSE {}
          IN own \cup sub \cup RegStatic(Tail(list))
 
+\* x coordinate of the (static) element `i`: follows references; `fuel`
+\* guards against cyclic references (those make the document fail anyway)
+RECURSIVE XOf(_, _, _)
+XOf(flat, i, fuel) ==
+    LET S == {j \in 1..Len(flat) : flat[j].id = i}
+    IN IF S = {} \/ fuel = 0 THEN 0
+       ELSE LET n == flat[CHOOSE j \in S : TRUE]
+            IN IF n.ref > 0 THEN XOf(flat, n.ref, fuel - 1) + 3 ELSE 3 * n.id
+
 (***************************************************************************)
 (* Ideal evaluation.  C = [doc, dl, ll, vl, str, iv] (limits, string mode,  *)
 (* initial value of a and b).                                              *)
@@ -79,7 +88,7 @@ RegStatic(list) ==
 (***************************************************************************)
 InitScope(iv) == [x \in VarNames |-> IF x = "u" THEN UNDEF ELSE iv]
 St0(iv) == [sc |-> <<InitScope(iv)>>, items |-> <<>>, unr |-> <<>>, rng |-> 0,
-        err |-> "-", specs |-> FALSE, inl |-> 0, refs |-> {}]
+        err |-> "-", specs |-> FALSE, inl |-> 0, refs |-> {}, px |-> 0]
 
 RECURSIVE EvList(_, _, _, _), EvNode(_, _, _, _), EvLoop(_, _, _, _, _, _)
 
@@ -96,18 +105,29 @@ EvNode(nd, st, d, C) ==
     ELSE
     CASE nd.k = "leaf" ->
            LET v == IF nd.rd = "-" THEN nd.val ELSE Lookup(st.sc, nd.rd)
+               \* inside an instance the hand-written equivalent has the value
+               \* substituted (an undefined variable stays a verbatim reference)
                cp == IF st.inl # 0
-                     THEN [nd EXCEPT !.rd = "-", !.val = v, !.href = st.inl]
+                     THEN [nd EXCEPT !.rd = IF v = UNDEF THEN @ ELSE "-", !.val = v,
+                                     !.href = IF st.inl > 0 THEN st.inl ELSE 0]
                      ELSE nd
-           IN [st EXCEPT !.items = IF st.specs THEN @ ELSE Append(@, [id |-> nd.id, v |-> v]),
+               \* horizontal position: absolute by id, next to the previous
+               \* element ("^"), or next to the referenced element
+               x == CASE nd.ref = 0 -> 3 * nd.id
+                      [] nd.ref = -1 -> st.px + 3
+                      [] OTHER -> XOf(C.flat, nd.ref, Len(C.flat)) + 3
+           IN [st EXCEPT !.items = IF st.specs THEN @ ELSE Append(@, [id |-> nd.id, v |-> v, x |-> x]),
+                         !.px = x,
                          !.rng = IF nd.rnd THEN @ + 1 ELSE @,
-                         !.refs = IF nd.ref # 0 /\ ~st.specs THEN @ \cup {<<nd.id, nd.ref>>} ELSE @,
+                         !.refs = IF nd.ref > 0 /\ ~st.specs THEN @ \cup {<<nd.id, nd.ref>>} ELSE @,
                          !.unr = Append(@, cp)]
       [] nd.k \in {"g", "cont"} ->
-           LET s1 == IF nd.k = "g" THEN [st EXCEPT !.sc = Append(@, ScopeOf(nd.loc))] ELSE st
+           LET s0 == [st EXCEPT !.inl = IF @ > 0 THEN -1 ELSE @]
+               s1 == IF nd.k = "g" THEN [s0 EXCEPT !.sc = Append(@, ScopeOf(nd.loc))] ELSE s0
                s2 == EvKids(nd, s1, d + 1, C)
-               cp == [nd EXCEPT !.ch = s2.unr, !.href = st.inl]
+               cp == [nd EXCEPT !.ch = s2.unr, !.href = IF st.inl > 0 THEN st.inl ELSE 0]
            IN [s2 EXCEPT !.sc = IF nd.k = "g" /\ s2.err = "-" THEN SubSeq(@, 1, Len(@) - 1) ELSE @,
+                         !.inl = st.inl,
                          !.unr = Append(st.unr, cp)]
       [] nd.k = "var" ->
            IF C.str /\ MaxAssigned(nd.asg, st.sc) > C.vl
